@@ -289,4 +289,26 @@ PROPS = {
         "assumptions": ["ECDSA signatures are randomised, so signatures are verified, never compared",
                         "duplicate records are not put into an RRset (RFC 2181 5)"],
     },
+    "C14": {
+        "level": "exploration",
+        "features": ["crypto", "hooks"],
+        "stages": [
+            {"mode": "native", "cpu_budget": 400},
+            {"mode": "asan", "shards": 4, "scale": 0.1, "tiers": ["thorough"], "cpu_budget": 900},
+        ],
+        "rule": "an evaluation is one validate_msg call on a fresh ValidationContext whose upstream is a mock (SendRequest) answering from a hierarchy signed with "
+                "the library's signer at run time: root -> test -> {secure, secure2 (ECDSAP256), insecure (no DS), odd (ED25519/P384, which the validator does "
+                "not support)}, each zone with its own KSK/ZSK or CSK and NSEC, NSEC3 or NSEC3 opt-out; ~100 queries per hierarchy (positive, wildcard one and "
+                "two labels deep, NODATA at names / empty non-terminals / wildcards / apex, NXDOMAIN before, between and after names, CNAME chains within a "
+                "zone, into a wildcard, into another secure zone and into an insecure zone, DS and DNSKEY queries); (a) the untouched answer must validate as "
+                "Secure (secure chain), Insecure (insecure delegation, unsupported algorithm, chain through an insecure zone), never Bogus; (b) the answer "
+                "damaged by one of 11 faults (RRSIG dropped, signature bit, RDATA bit, wrong signer, expired / not yet valid re-signature, one or all denial "
+                "records dropped, SOA dropped, unsigned extra RRset, all DNSSEC records stripped) must not be Secure; (c) the untouched answer with the upstream "
+                "lying about one DS or DNSKEY RRset on the chain (11 faults incl. SERVFAIL, empty answer, timeout, truncated message) must be neither Secure nor "
+                "Insecure; no panic, at most 200 upstream requests per validation; distinct = (kind of answer, denial type, fault, outcome)",
+        "assumptions": ["ground truth comes from the construction: every fault removes or invalidates the only signature, record or proof the answer depends on",
+                        "the validator reads the wall clock; signatures are made valid from one hour ago to seven days ahead, expired / future ones ten days off",
+                        "a delegation whose DS RRset names only algorithms outside dnssec::validator::base::supported_algorithm is insecure (RFC 4035 5.2)",
+                        "Bogus and Indeterminate are not distinguished"],
+    },
 }
